@@ -515,9 +515,17 @@ def c09(rec):
         elif name == "submit" and m is not None and o["exc"] is None:
             m["started"] = True
             m["idle"] = False
+            if o["op"][2] == "die":
+                # the task takes its worker down at some later time: until the caller is told
+                # (a future failing with a broken-pool error) both answers are right
+                m["maybe_broken"] = True
         elif name == "sleep" and m is not None and pool.get("timeout") and o["op"][1] > pool["timeout"]:
             m["idle"] = True           # every worker may have left on its idle timeout
         elif name == "kill" and m is not None and m["started"] and not m["shutdown"]:
+            m["broken"] = True
+        elif name == "result" and m is not None and o.get("value") and o["value"][0] == "exc" \
+                and (o["value"][1] in BPP or any(n in BPP for n in o["value"][4])):
+            # the caller has been told the pool broke: from now on it is not reusable
             m["broken"] = True
         elif name == "shutdown" and m is not None:
             m["shutdown"] = True
@@ -534,6 +542,8 @@ def c09(rec):
                 if reuse == "auto":
                     reuse = newkw == m["kwargs"]
                 fresh = bool(m["broken"] or m["shutdown"] or not reuse)
+                if not fresh and m.get("maybe_broken") and o["returned"] and "same" in o:
+                    fresh = not o["same"]          # the crash may or may not have been seen yet
             if not o["returned"] or o["exc"] is not None or "same" not in o:
                 if not v:
                     out.append(dict(signature=f"C09:get-raised:{(o['exc'] or ['?'])[0]}|cause={c}",
